@@ -46,7 +46,7 @@ def _classpath():
     return ":".join(cp)
 
 
-def run(module, cfg, env=None, workers=1, args=(), timeout=3600, heap="4g", spec_dir=SPEC):
+def run(module, cfg, env=None, workers=1, args=(), timeout=3600, heap="4g", spec_dir=SPEC, text=None):
     """run TLC on spec/<module>.tla with config text `cfg`; returns dict(out, prints, states, distinct, wall)"""
     _seq[0] += 1
     sc = scratch()
@@ -55,7 +55,15 @@ def run(module, cfg, env=None, workers=1, args=(), timeout=3600, heap="4g", spec
     with open(cfgpath, "w") as f:
         f.write(cfg)
     meta = os.path.join(sc, tag + ".meta")
-    cmd = ["java", "-Xmx" + heap, "-XX:+UseParallelGC", "-cp", _classpath(), "tlc2.TLC", "-workers", str(workers),
+    if text is not None:
+        # a generated module (model-checking instance): lives in the scratch directory, finds the
+        # hand-written modules through TLA-Library
+        spec_dir = os.path.join(sc, tag + ".mod")
+        os.makedirs(spec_dir, exist_ok=True)
+        with open(os.path.join(spec_dir, module + ".tla"), "w") as f:
+            f.write(text)
+    cmd = ["java", "-Xmx" + heap, "-XX:+UseParallelGC", "-DTLA-Library=" + SPEC, "-cp", _classpath(), "tlc2.TLC",
+           "-workers", str(workers),
            "-metadir", meta, "-noGenerateSpecTE", "-config", cfgpath] + list(args) + [module + ".tla"]
     e = dict(os.environ)
     e.pop("JAVA_TOOL_OPTIONS", None)
@@ -66,6 +74,8 @@ def run(module, cfg, env=None, workers=1, args=(), timeout=3600, heap="4g", spec
     wall = time.time() - t0
     out = p.stdout.decode("utf-8", "replace")
     shutil.rmtree(meta, ignore_errors=True)
+    if text is not None:
+        shutil.rmtree(spec_dir, ignore_errors=True)
     res = {"out": out, "wall": wall, "rc": p.returncode, "prints": parse_prints(out)}
     m = re.findall(r"(\d+) states generated, (\d+) distinct states found", out)
     if m:
